@@ -24,7 +24,15 @@ generation —, then the run-function is launched with
 `**self.run_function_kwargs`, a property that resolves `"dequed"` from the context variable of the
 current task.
 
-A job goes through the phases `created → holding → running → returning → finished`; the
+`Evaluator.close()` cancels every task that is not done: the `CancelledError` reaches the task
+wherever it is suspended — on a waiter future (nothing popped yet), on the worker semaphore, inside
+the run-function — and the `finally` block returns whatever the job holds (`cancel`; a done task is
+not affected by `Task.cancel()`).  The evaluator can be used again afterwards (further `submit`s).
+A `timeout` that expires does not cancel the task: the job waits for its run-function and ends through
+the ordinary `endRun` / `release` path.
+
+A job goes through the phases `created → holding → running → returning → finished`, or from any of
+the first four to `cancelled`; the
 transitions of different jobs interleave in any order the guards allow (asyncio's scheduling and the
 completion order of the evaluations are the environment).  The waiter futures are abstracted into
 the guard of `take` (a job takes its resources only when enough are free); the worker semaphore into
@@ -45,6 +53,8 @@ inductive Phase (R : Type)
   | returning (ds : List R) (recv : Option (List R))
   /-- resources returned; `md` = what `job.metadata["dequed"]` names -/
   | finished (recv : Option (List R)) (md : List R)
+  /-- the task was cancelled (by `close()`); whatever it held is back in the queue -/
+  | cancelled
   deriving DecidableEq, Repr
 
 structure QJob (R : Type) where
@@ -69,6 +79,8 @@ inductive QStep
   | start (j : Nat)
   | endRun (j : Nat)
   | release (j : Nat)
+  /-- `Task.cancel()` reaching job `j`'s task while it is not done -/
+  | cancel (j : Nat)
   deriving DecidableEq, Repr
 
 variable {R : Type}
@@ -78,6 +90,21 @@ def init (queue : List R) (pop workers : Nat) : QState R :=
 
 def isRunning : Phase R → Bool
   | .running _ _ => true
+  | _ => false
+
+/-- resources a job currently holds -/
+def held : Phase R → List R
+  | .created => []
+  | .holding ds => ds
+  | .running ds _ => ds
+  | .returning ds _ => ds
+  | .finished _ _ => []
+  | .cancelled => []
+
+/-- the job's task is done (finished normally or cancelled) -/
+def isEnded : Phase R → Bool
+  | .finished _ _ => true
+  | .cancelled => true
   | _ => false
 
 /-- holders of the worker semaphore of generation `g` that are inside the run-function -/
@@ -128,6 +155,21 @@ def step (s : QState R) : QStep → Option (QState R)
         some (setJob { s with queue := s.queue ++ ds } j { x with phase := .finished recv ds })
       | _ => none
     | none => none
+  | .cancel j =>
+    match s.jobs[j]? with
+    | some x =>
+      if isEnded x.phase then none
+      else some (setJob { s with queue := s.queue ++ held x.phase } j { x with phase := .cancelled })
+    | none => none
+
+/-- `for t in self._tasks_running: t.cancel()` + waiting for them, for the tasks `order` (the
+order in which the cancelled tasks get to run is the event loop's): a task that is already done is
+not affected -/
+def cancelAll (s : QState R) : List Nat → QState R
+  | [] => s
+  | j :: js => match step s (.cancel j) with
+    | some s' => cancelAll s' js
+    | none => cancelAll s js
 
 /-- run a list of steps; `none` as soon as one of them is not enabled -/
 def steps (s : QState R) : List QStep → Option (QState R)
@@ -142,14 +184,6 @@ inductive Reach (q0 : List R) (pop workers : Nat) : QState R → Prop
   | step {s s' : QState R} (t : QStep) : Reach q0 pop workers s → step s t = some s' →
       Reach q0 pop workers s'
 
-/-- resources a job currently holds -/
-def held : Phase R → List R
-  | .created => []
-  | .holding ds => ds
-  | .running ds _ => ds
-  | .returning ds _ => ds
-  | .finished _ _ => []
-
 def heldAll (s : QState R) : List R := s.jobs.flatMap (fun j => held j.phase)
 
 /-- progress measure: how many transitions each job still has to make -/
@@ -159,12 +193,9 @@ def rank : Phase R → Nat
   | .running _ _ => 2
   | .returning _ _ => 1
   | .finished _ _ => 0
+  | .cancelled => 0
 
 def measure (s : QState R) : Nat := (s.jobs.map (fun j => rank j.phase)).sum
-
-def isFinished : Phase R → Bool
-  | .finished _ _ => true
-  | _ => false
 
 /-! ### the pinned tree (regression witnesses only)
 
